@@ -1,0 +1,62 @@
+//go:build verif
+
+package x509
+
+import (
+	"net"
+	"reflect"
+
+	"github.com/zmap/zcrypto/encoding/asn1"
+	"github.com/zmap/zcrypto/x509/pkix"
+)
+
+// Exported wrappers for the functions of x509.go that read asn1.AllowPermissiveParsing (C20). Thin: no logic.
+
+// ZVC20ParsePublicKey runs parsePublicKey on a SubjectPublicKeyInfo given by its two parsed parts.
+func ZVC20ParsePublicKey(algo PublicKeyAlgorithm, alg pkix.AlgorithmIdentifier, key asn1.BitString) (interface{}, error) {
+	return parsePublicKey(algo, &publicKeyInfo{Algorithm: alg, PublicKey: key})
+}
+
+// ZVC20ParseGeneralNames is parseGeneralNames.
+func ZVC20ParseGeneralNames(value []byte) (otherNames []pkix.OtherName, dnsNames, emailAddresses, URIs []string, directoryNames []pkix.Name, ediPartyNames []pkix.EDIPartyName, ipAddresses []net.IP, registeredIDs []asn1.ObjectIdentifier, failedToParse []asn1.RawValue, err error) {
+	return parseGeneralNames(value)
+}
+
+// ZVC20ParseCertificateExts unmarshals template (a well-formed certificate), replaces its extension list by exts
+// and runs parseCertificate on the result.
+func ZVC20ParseCertificateExts(template []byte, exts []pkix.Extension) (*Certificate, error) {
+	var cert certificate
+	rest, err := asn1.Unmarshal(template, &cert)
+	if err != nil || len(rest) != 0 {
+		panic("ZVC20ParseCertificateExts: template does not parse")
+	}
+	cert.TBSCertificate.Extensions = exts
+	return parseCertificate(&cert)
+}
+
+// ZVC20ParseTor runs parseTorServiceDescriptorSyntax and returns the number of descriptors.
+func ZVC20ParseTor(ext pkix.Extension) (int, error) {
+	d, err := parseTorServiceDescriptorSyntax(ext)
+	return len(d), err
+}
+
+// ZVC20ParseSCTList runs parseSignedCertificateTimestampList on a fresh Certificate and returns the number of
+// SCTs it appended before returning.
+func ZVC20ParseSCTList(ext pkix.Extension) (int, error) {
+	out := new(Certificate)
+	err := parseSignedCertificateTimestampList(out, ext)
+	return len(out.SignedCertificateTimestampList), err
+}
+
+// ZVC20Types exposes the reflect.Type of the unexported ASN.1 structures parseCertificate unmarshals into.
+func ZVC20Types() map[string]reflect.Type {
+	return map[string]reflect.Type{
+		"pkcs1PublicKey":      reflect.TypeOf(pkcs1PublicKey{}),
+		"nameConstraints":     reflect.TypeOf(nameConstraints{}),
+		"distributionPoints":  reflect.TypeOf([]distributionPoint(nil)),
+		"authKeyId":           reflect.TypeOf(authKeyId{}),
+		"policyInformations":  reflect.TypeOf([]policyInformation(nil)),
+		"userNotice":          reflect.TypeOf(userNotice{}),
+		"authorityInfoAccess": reflect.TypeOf([]authorityInfoAccess(nil)),
+	}
+}
